@@ -357,11 +357,13 @@ func init() {
 	ext("("+pkgTypes+".RpcReadWriter).Write", "RpcReadWriter.Write(ctx,rpc): any error; the attempt is counted in ncalls (wire log)", func(c *ExtCtx) Val {
 		return c.fresh(0, "write.err")
 	})
-	ext("("+pkgTypes+".RpcReadWriter).Read", "RpcReadWriter.Read(ctx): (rpc, err) with err == nil ==> rpc != nil  (A-transport: no nil envelope without an error)", func(c *ExtCtx) Val {
+	ext("("+pkgTypes+".RpcReadWriter).Read", "RpcReadWriter.Read(ctx): (rpc, err) with err == nil ==> rpc != nil  (A-transport: no nil envelope without an error; a read error is not an OK-coded status error)", func(c *ExtCtx) Val {
 		r := c.fresh(0, "read.rpc")
 		e := c.fresh(1, "read.err")
 		c.st.assume("(=> (= " + e.T + " 0) (distinct " + r.T + " 0))")
 		c.st.assume("(>= " + r.T + " 0)")
+		// A-transport: a read failure is never an OK-coded status error
+		c.st.assume("(=> (distinct " + e.T + " 0) (not (and (isStatus " + e.T + ") (= (stCode " + e.T + ") 0))))")
 		return c.tuple(r, e)
 	})
 
